@@ -50,6 +50,9 @@ pub struct Prog {
     pub post_stop: Vec<Step>,
 }
 
+#[cfg(feature = "alt")]
+impl ractor::Message for PMsg {}
+
 pub enum PMsg {
     Do { tag: u32, steps: Vec<Step> },
     Call { tag: u32, reply: RpcReplyPort<u32>, steps: Vec<Step> },
@@ -243,6 +246,7 @@ pub fn describe_event(e: &SupervisionEvent) -> String {
 #[derive(Default)]
 pub struct Probe;
 
+#[cfg_attr(feature = "alt", ractor::async_trait)]
 impl Actor for Probe {
     type Msg = PMsg;
     type State = ProbeState;
@@ -409,4 +413,20 @@ pub fn check_lifecycle(evs: &[Ev], actor: &str, facts: &ExitFacts) -> Vec<String
         }
     }
     bad
+}
+
+/// `true` in the third build of this harness (ractor features cluster + async-trait + monitors)
+pub const ALT: bool = cfg!(feature = "alt");
+
+/// body of a unit that belongs to another build of the harness
+pub fn wrong_build() -> vsched::Body {
+    std::sync::Arc::new(|| Box::pin(async { vsched::Outcome { key: "wrong build".into(), violations: vec!["MACHINERY: unit scheduled on the wrong build".into()] } }))
+}
+
+/// a unit that runs on the cluster / async-trait build of the harness
+pub fn alt_unit(name: String, cfg: vsched::ExecCfg, bound: Option<usize>, body: vsched::Body, split: usize) -> vsched::report::Unit {
+    let b = if ALT { body } else { wrong_build() };
+    let mut u = vsched::report::Unit::explore_split(vsched::explore::Job::new(name, cfg, bound, b), split);
+    u.exe_suffix = Some("-alt");
+    u
 }
